@@ -586,3 +586,6 @@ def decide_inconclusive(obs, results, cases):
     if obs.get('rejected_at_once', 0) == 0 or obs.get('rejected_after_wait', 0) == 0:
         return 'no rejection with / without backpressure was observed'
     return None
+
+
+RULE = RULE + '; stalled-pipe scenario (busy worker, 4 MB request in transfer, layouts P / P>T / T>P, sync and async); contended wait bound; wall-clock margins (1.5 s) on every rejected or timed-out call'
